@@ -353,6 +353,10 @@ class World(object):
         for k in ("four_bytes_as", "route_refresh", "cisco_route_refresh", "enhanced_route_refresh",
                   "graceful_restart", "cisco_multi_session", "add_path"):
             so(k, c[k], group="bgp")
+        if c.get("ext_nexthop") is not None:
+            so("ext_nexthop", list(c["ext_nexthop"]), group="bgp")      # ('ext_nexthop =' in the ini file: empty list)
+        else:
+            CONF.clear_override("ext_nexthop", group="bgp")
         so("running_config", {}, group="bgp")
         so("connect_retry_time", c["connect_retry_time"], group="time")
         so("hold_time", c["hold_time"], group="time")
@@ -619,6 +623,10 @@ class World(object):
             _app_client = app.test_client()
         headers = {}
         user, pw = self.cfg["username"], self.cfg["password"]
+        if "@" in cred:
+            # '<shape>@<accept>': the request also carries an Accept header
+            cred, acc = cred.split("@", 1)
+            headers["Accept"] = {"json": "application/json, text/javascript", "any": "*/*", "html": "text/html"}[acc]
         if cred == "ok":
             pair = (user, pw)
         elif cred == "baduser":
@@ -643,6 +651,11 @@ class World(object):
             pair = (user[:-1], user[-1:] + pw) if len(user) > 1 else (user + pw[:1], pw[1:] + "x")
         elif cred == "user_is_both":
             pair = (user + pw, "")
+        elif cred == "user_nonascii":
+            # another user name: the configured one with a non-ASCII letter inside / behind it
+            pair = (user[:1] + "\u00e9" + user[1:], pw)
+        elif cred == "user_nonascii_tail":
+            pair = (user + "\u20ac", pw)
         else:
             pair = None
         if pair is not None and cred != "ok" and pair == (user, pw):
@@ -687,6 +700,19 @@ class World(object):
                                                               "nlri": ["10.77.%d.0/24" % int(arg or 1)], "withdraw": []}})
         self.note("hqueue", kind)
         return True
+
+    def op_sockfail(self, errno_=12):
+        """setsockopt() on the socket of the NEXT connection attempt fails (ENOMEM, ENOPROTOOPT ...); only
+        agents that set a socket option (TCP-MD5) notice."""
+        if self.exited:
+            return False
+        self.sockopt_fail_next = int(errno_)
+        self.note("sockfail_armed", int(errno_))
+        return True
+
+    def take_sockfail(self):
+        e, self.sockopt_fail_next = getattr(self, "sockopt_fail_next", None), None
+        return e
 
     def op_hfail(self, n=1):
         """The n-th application-handler callback from now raises OSError(ENOSPC)."""
